@@ -52,3 +52,8 @@ package fx
 //@   loop 0: invariant options == fo
 //@   call opt#0: assert arg0 == fo
 //@   ensures result == fo && fresh(result)
+
+// Parallel is Walk with the caller's options (the worker cap included)
+//@ func (s Stream) Parallel
+//@   property C05
+//@   call Walk#0: assert sameSlice(arg_opts, opts)
